@@ -27,6 +27,12 @@ def run_one(name, text, keep=True):
             elif l.startswith('FRAMES'):
                 w = l.split()
                 res['frames'], res['left'] = int(w[1]), int(w[3])
+        # at a quiescent end the model must not hold undelivered messages (promotion hand-overs
+        # legitimately strand messages towards peers that left: not counted there)
+        tail = [l for l in out.split('\n') if l in ('QUIESCENT', 'NOTQUIESCENT')]
+        if tail and tail[-1] == 'QUIESCENT' and res['left'] > 0 and 'promote' not in text and 'removetransports' not in text:
+            lo = [l for l in dout.split('\n') if l.startswith('LEFTOVER')]
+            res['diffs'].append('DIFF the run ended quiescent but the model still holds %d undelivered messages: %s' % (res['left'], '; '.join(lo)[:400]))
         if rc2 not in (0, 1) or (rc2 == 1 and not res['diffs']):
             res['diffs'].append('driver failed: ' + dout[-300:])
     return res
